@@ -57,6 +57,13 @@ impl AsmOut {
 /// Assemble `src` on the current thread (features must be initialised); resets the global
 /// assembler state afterwards, as `lace watch` does.
 pub fn assemble(src: &str, render_diag: bool) -> AsmOut {
+    case_begin(src);
+    let out = assemble_inner(src, render_diag);
+    case_end();
+    out
+}
+
+fn assemble_inner(src: &str, render_diag: bool) -> AsmOut {
     let mut holder = StaticSource::new(src.to_string());
     let text: &'static str = holder.src();
     let mut out = AsmOut {
